@@ -37,6 +37,7 @@ static unsigned long g_allocs, g_inversions;
 static uintptr_t g_last;
 static uint64_t g_sig = 0xcbf29ce484222325ULL;
 static volatile int g_lock;
+static int g_fill = -1; /* SIMHEAP_FILL: byte value new (non-calloc) blocks are filled with; -1 = leave the fresh zero pages */
 
 static uint64_t sm64(uint64_t *x) {
   uint64_t z = (*x += 0x9E3779B97F4A7C15ULL);
@@ -57,6 +58,8 @@ static uint64_t rnd(void) { /* xoroshiro128+ */
 static void heap_init(void) {
   if (g_init) return;
   g_init = 1;
+  const char *fl = getenv("SIMHEAP_FILL");
+  if (fl && fl[0]) g_fill = atoi(fl) & 0xff;
   const char *s = getenv("SIMHEAP_SEED");
   uint64_t seed = s ? strtoull(s, NULL, 10) : 1;
   uint64_t x = seed;
@@ -113,7 +116,13 @@ static void *alloc(size_t size, size_t align) {
   return res;
 }
 
-void *malloc(size_t size) { return alloc(size ? size : 1, 16); }
+static void *dirty(void *p, size_t size) {
+  /* malloc does not promise zeroed memory: optionally hand out blocks full of a seeded byte */
+  if (p && g_fill >= 0) memset(p, g_fill, size);
+  return p;
+}
+
+void *malloc(size_t size) { return dirty(alloc(size ? size : 1, 16), size); }
 void free(void *p) { (void)p; }
 void *calloc(size_t n, size_t m) {
   size_t total;
@@ -125,7 +134,7 @@ void *realloc(void *old, size_t size) {
   size_t osz = ((size_t *)old)[-1];
   if (size == 0) size = 1;
   if (size <= osz) { return old; }
-  void *p = alloc(size, 16);
+  void *p = dirty(alloc(size, 16), size);
   if (p) memcpy(p, old, osz);
   return p;
 }
@@ -135,13 +144,13 @@ void *reallocarray(void *old, size_t n, size_t m) {
   return realloc(old, total);
 }
 int posix_memalign(void **out, size_t align, size_t size) {
-  void *p = alloc(size ? size : 1, align);
+  void *p = dirty(alloc(size ? size : 1, align), size);
   if (!p) return ENOMEM;
   *out = p;
   return 0;
 }
-void *aligned_alloc(size_t align, size_t size) { return alloc(size ? size : 1, align); }
-void *memalign(size_t align, size_t size) { return alloc(size ? size : 1, align); }
+void *aligned_alloc(size_t align, size_t size) { return dirty(alloc(size ? size : 1, align), size); }
+void *memalign(size_t align, size_t size) { return dirty(alloc(size ? size : 1, align), size); }
 void *valloc(size_t size) { return alloc(size ? size : 1, 4096); }
 void *pvalloc(size_t size) { return alloc(size ? size : 1, 4096); }
 size_t malloc_usable_size(void *p) { return p ? ((size_t *)p)[-1] : 0; }
